@@ -291,10 +291,13 @@ impl<'a> StatementAnalyzer<'a> {
             }
         }
         self.program().expect_next_token(Token::Equals)?;
-        self.program().define_function(function_name, arg_names)?;
+        self.program()
+            .define_function(function_name.clone(), arg_names)?;
 
-        // Evaluate the function body.
-        self.evaluate_expression()?;
+        // Evaluate the function body. Calls are assumed to yield the type
+        // that the function's name indicates, so its body has to as well.
+        self.evaluate_expression()?
+            .check_variable_name(function_name)?;
 
         Ok(())
     }
